@@ -57,6 +57,7 @@ type vpWorld struct {
 	wedge                                                        chan struct{} // when non-nil, CreateFile waits for it to be closed
 	wedgeIgnoresCtx                                              bool          // ... without honouring its context
 	createCalls                                                  int
+	committedRows                                                int // rows of the files written by successful Update calls
 }
 
 var vpW *vpWorld
@@ -254,6 +255,13 @@ func (m *vpMeta) Update(ctx context.Context, writes []WriteOperation, deletes []
 		return vpInjected()
 	}
 	m.w.log(evUpdateOK, -1)
+	for _, wr := range writes {
+		if wr.FileMetadata != nil {
+			for i := range wr.FileMetadata.DataBlocks {
+				m.w.committedRows += wr.FileMetadata.DataBlocks[i].Rows
+			}
+		}
+	}
 	return nil
 }
 
